@@ -35,14 +35,17 @@ DOM = {
     # ClassVar[tunable[float]], x: Sequence[float] = tunable([1, 2]))
     "hint_float": [1, 2.25, -0.5], "hint_float_g": [1, 2.25, -0.5], "hint_float_cv": [1, 2.25, -0.5],
     "hint_float[]": [[1, 2], [2.5], [0.25, 0.5, 0.75]],
+    # the hint is inherited: a base class declares 'x: float = tunable(0.5)', the owner class redefines x = tunable(1)
+    "hint_float_inh": [1, 2.25, -0.5],
 }
-HINTED = {"hint_float": "float", "hint_float_g": "float", "hint_float_cv": "float", "hint_float[]": "float[]"}
+HINTED = {"hint_float": "float", "hint_float_g": "float", "hint_float_cv": "float", "hint_float[]": "float[]",
+          "hint_float_inh": "float"}
 TOPIC = {
     "bool": ntcore.BooleanTopic, "int": ntcore.IntegerTopic, "float": ntcore.DoubleTopic, "str": ntcore.StringTopic,
     "bytes": ntcore.RawTopic, "int[]": ntcore.IntegerArrayTopic, "float[]": ntcore.DoubleArrayTopic,
     "bool[]": ntcore.BooleanArrayTopic, "str[]": ntcore.StringArrayTopic, "empty_int[]": ntcore.IntegerArrayTopic,
     "empty_str[]": ntcore.StringArrayTopic, "hint_float": ntcore.DoubleTopic, "hint_float_g": ntcore.DoubleTopic,
-    "hint_float_cv": ntcore.DoubleTopic, "hint_float[]": ntcore.DoubleArrayTopic,
+    "hint_float_cv": ntcore.DoubleTopic, "hint_float[]": ntcore.DoubleArrayTopic, "hint_float_inh": ntcore.DoubleTopic,
 }
 TYPES = list(DOM)
 NOREDECL = {"sub": "", "type": "none", "wd": False}      # (JSON null cannot be read by TLC's Json module)
@@ -128,21 +131,28 @@ class World:
             if tu["sub"]:
                 kw["subtable"] = tu["sub"]
             tns, tann = (base_ns, base_ann) if ly == 0 else (ns, ann)
+            # half of the hints are written as strings (quoted hints, "from __future__ import annotations")
+            sh_ = (self.uid + len(attr)) % 2 == 0
+            if ty == "hint_float_inh":
+                base_ann[attr] = "float" if sh_ else float
+                base_ns[attr] = tunable(0.5)
+                ns[attr] = tunable(d, **kw)
+                continue
             if ty == "empty_int[]":
                 tns[attr] = tunable[Sequence[int]]([], **kw)
             elif ty == "empty_str[]":
-                tann[attr] = tunable[Sequence[str]]
+                tann[attr] = "tunable[Sequence[str]]" if sh_ else tunable[Sequence[str]]
                 tns[attr] = tunable([], **kw)
             elif ty == "hint_float":
-                tann[attr] = float
+                tann[attr] = "float" if sh_ else float
                 tns[attr] = tunable(d, **kw)
             elif ty == "hint_float_g":
                 tns[attr] = tunable[float](d, **kw)
             elif ty == "hint_float_cv":
-                tann[attr] = typing.ClassVar[tunable[float]]
+                tann[attr] = "typing.ClassVar[tunable[float]]" if sh_ else typing.ClassVar[tunable[float]]
                 tns[attr] = tunable(d, **kw)
             elif ty == "hint_float[]":
-                tann[attr] = Sequence[float]
+                tann[attr] = "Sequence[float]" if sh_ else Sequence[float]
                 tns[attr] = tunable(list(d), **kw)
             else:
                 tns[attr] = tunable(d, **kw)
